@@ -3,7 +3,8 @@
 import json, os, sys
 sys.path.insert(0, os.path.dirname(os.path.dirname(os.path.abspath(__file__))))
 from checklib import registry
-from checklib.manifest_table import TABLE, NOT_APPLICABLE
+from checklib.manifest_table import NOT_APPLICABLE
+TABLE = registry.MANIFEST_TABLE
 
 V = os.path.dirname(os.path.dirname(os.path.abspath(__file__)))
 props = [json.loads(l) for l in open(os.path.join(V, "properties.jsonl"))]
